@@ -557,11 +557,47 @@ class SeamNotHit(Exception):
     pass
 
 
+def run_past(kind, a):
+    """Something a user did earlier in the same process with objects the
+    library handed out (they are the user's to edit): it must not leak into
+    the formula built afterwards."""
+    from cnfgen.graphs import Graph
+    N = a[0]
+    if kind == 'complete-graph-edited':
+        G = Graph.complete_graph(N)
+        if N >= 2:
+            G.remove_edge(1, N)
+        G.update_vertex_number(N + 2)
+        G.add_edge(1, N + 2)
+    elif kind == 'cli-op-splitedges':
+        import random
+        import cnfgen.clitools.msg as msgmod
+        from cnfgen.clitools.cnfgen import cli
+        st = random.getstate()
+        try:
+            if hasattr(msgmod, '_prefix'):
+                msgmod._prefix = ''
+            cli(['cnfgen', '-q', '--seed', '1', 'op', 'complete', str(N), 'splitedges', '1'],
+                mode='formula')
+        finally:
+            random.setstate(st)
+            if hasattr(msgmod, '_prefix'):
+                msgmod._prefix = ''
+    elif kind == 'empty-graph-edited':
+        G = Graph.empty_graph(N)
+        if N >= 2:
+            G.add_edge(1, N)
+    else:
+        raise KeyError(kind)
+
+
 def build(case, info):
     """Builds the formula of a case with the real generator."""
     import cnfgen
     fam = case['fam']
     a = case['args']
+    if case.get('past'):
+        run_past(case['past'], a)
     if fam == 'op':
         return cnfgen.OrderingPrinciple(a[0], total=a[1], smart=a[2], plant=a[3], knuth=a[4])
     if fam == 'gop':
@@ -1168,6 +1204,10 @@ def cases(tier, seed):
         if N < 7:
             add('op', [N, True, False, True, 5], cost=2)
     add('op', [-1, False, False, False, 0], expect='ValueError', cls='negative-size')
+    for N in range(2, 6):
+        for past in ('complete-graph-edited', 'cli-op-splitedges', 'empty-graph-edited'):
+            add('op', [N, False, False, N % 2 == 0, 0], cost=3, past=past)
+            add('op', [N, True, False, False, 0], cost=3, past=past)
     # ---- graph ordering principle: all graphs
     for nv_ in range(0, 6):
         for es in scope.simple_graphs(nv_):
